@@ -34,11 +34,79 @@ for k, strides in enumerate(("ids 8, funcs 0, args 1, results 8, attrs 0", "ids 
         JOBS.append(aux_job("c17.aux.%s.s%d" % (pn, k), part, rewrites=HOOK, defines=["-DVMUL=0", "-DSAMPLE=%d" % k], kind="bounded",
           note="bounded cross-check with the REAL multiplications of the text (no verif_mul): constant stride tuple (%s), n < 2^16; "
                "the axioms of the product table are assertions here" % strides))
+for k in (0, 1, 2):
+    JOBS.append(Job("c17.axioms.s%d" % k, TU, "h_axioms", defines=["-DVMUL=0", "-DSAMPLE=%d" % k, "-DAXIOM_ASSERT"], kind="bounded", fuc=[],
+      timeout=200, mem_gb=4, note="bounded: every axiom of the product table holds for machine multiplication, constant stride tuple %d, item numbers < 2^16" % k))
+# Mutations (selftest/C17): m1 right half starts at c+1 (item c never runs); m2 leaf test `b - a <= 2` (second item of a pair never
+# runs); m3 child never joined; m4 result stored one cell further; m5 ids addressed with the result stride (VMUL jobs: rewrite does
+# not fire -> undecided; caught by c17.aux.leaf.s1 with the real multiplication); m6 many passes func stride 8; m7 n == 0 not
+# special-cased (aux on an empty range); m8 id stored only when results are given.  All eight are CAUGHT.
 META = {
  "level": "proof",
- "level_text": "",
- "level_note": "",
- "trusted_base": [],
- "explanation": "",
- "assumptions": [],
+ "level_text": "C half: inductive contract proof (--enforce-contract-rec) of the real myth_create_join_various_ex_aux for an arbitrary "
+               "range [a,b), any n (below 2^31 as soon as an array is strided, up to LONG_MAX/2 otherwise), symbolic strides, "
+               "results/ids/attrs given or NULL, user arrays of symbolic size: for a witness item g_w the user function f_{g_w} is called "
+               "exactly once with args + g_w*arg_stride, exactly b - a user calls are made, its result is in its strided result slot and the "
+               "id of the thread that ran it in its id slot, an arbitrary other cell of either array is unchanged, every child is joined; "
+               "the recursion is closed by aux's own contract on strictly smaller ranges (decreases b - a). "
+               "myth_create_join_various_ex_body and myth_create_join_many_ex_body are proved against that contract (n = 0: nothing "
+               "happens; many = various with function stride 0). The TBB-like C++ layer (task_group, parallel_for) is NOT decided.",
+ "level_note": "Trusted: cbmc 6.11 (dfcc, SAT back end; z3 for one integer lemma), gcc -E. Assumed: a created-and-joined thread running "
+               "aux(arg) has the effect of aux's contract on arg by the time join returns (C01 + induction hypothesis); i*stride is "
+               "abstracted to an uninterpreted function with congruence and monotonicity (five recorded rewrites of `a * x_stride` to "
+               "verif_mul; lemma proved over the integers; cross-checked with the real multiplications for two constant stride tuples, "
+               "bounded); user functions are independent of each other and of the arrays; the five arrays are pairwise disjoint "
+               "objects; result/id/function slots are aligned, non-overlapping 8-byte cells. mtbb (C++ templates) is outside CBMC's "
+               "reach here: the known empty-range recursion of parallel_for_aux is not decided.",
+ "trusted_base": ["cbmc 6.11.0 (goto-cc, goto-instrument --dfcc --enforce-contract-rec, SAT back end MiniSat; z3 for c17.lemma.mono)",
+                  "gcc -E preprocessing of the real headers (rule R2; job rewrites: ghost hook at the entry of aux, a * x_stride -> verif_mul)",
+                  "paper step: machine multiplication of operands below 2^31 is one instance of the uninterpreted product table "
+                  "(no overflow below 2^62; congruence; monotonicity = lemma c17.lemma.mono); induction on b - a from the two jobs "
+                  "c17.aux.leaf / c17.aux.split"],
+ "explanation": "Witness-based contract (ghost item g_w, ghost guard cells) on the real recursive halving helper, proved by "
+                "--enforce-contract-rec in two jobs (single item / split); create and join are contract stubs carrying aux's own "
+                "postcondition for the strictly smaller child range, granted at join; outstanding children are a ghost counter. The two "
+                "public bodies are proved against aux's contract. Products i*stride are an uninterpreted table with the axioms "
+                "congruence and x<y => x*s+s <= y*s (proved over the integers with z3, checked against machine products for three "
+                "constant stride tuples), because SAT cannot relate two multiplier circuits.",
+ "assumptions": [
+   "ASSUMED CONTRACT (C01 + induction hypothesis): myth_create_ex_body(&id, attr, aux, arg) succeeds (returns 0; a failure aborts the program "
+   "through assert, NDEBUG is not defined in the build) and myth_join_body(id, 0) returns 0 after the created thread has run aux(arg) "
+   "exactly once, i.e. with the effect of aux's contract on arg's strictly smaller range; the effect is granted at join, not before",
+   "create/join stubs allow one outstanding child per recursion level (what the code does); deeper levels are inside contract-replaced calls; "
+   "outstanding children are a ghost counter (g_pending), the right half runs while it is 1",
+   "myth_self() is a stub returning a ghost token of the running thread; thread ids are tokens, never dereferenced",
+   "user functions F_watch / F_other are stubs that only count and return ghost values: user functions are assumed independent of each "
+   "other, of the five arrays and of the library (otherwise the parallel run is not the sequential loop for any implementation)",
+   "the function table defines f_i (f_{g_w} = F_watch, every other slot F_other; stride 0: the one shared f): a quantified fact about "
+   "user memory that nobody writes; the harness assumes only its instance for the slot the call under proof reads itself",
+   "UNINTERPRETED MULTIPLICATION (jobs c17.aux.leaf/.split): the five products `a * id_stride|func_stride|arg_stride|result_stride|attr_stride` "
+   "of aux are rewritten (must-fire, count 1 each) to verif_mul(a, stride, k), which returns the universe's product-table entry for "
+   "(g_ha, stride of array k) and an arbitrary value otherwise; table entries are arbitrary numbers in [0, 2^49] subject to: equal "
+   "operands give equal products, x < y ==> x*s + s <= y*s, 0*s = i*0 = 0, s % 8 == 0 ==> i*s % 8 == 0. Machine multiplication "
+   "(operands < 2^31) is one such table; monotonicity is proved over the mathematical integers by c17.lemma.mono (z3), all axioms "
+   "are asserted against machine products by c17.axioms.s0-2 (bounded: three constant stride tuples, item numbers < 2^16)",
+   "a second must-fire rewrite inserts the ghost statement verif_aux_entered() as first statement of aux (measure: every call made from "
+   "inside the body is required to have a strictly smaller range inside the range under proof); no other change of the text",
+   "BOUNDS (preconditions, not unwinding bounds): n <= LONG_MAX/2; as soon as one stride is non-zero or results/ids are given: n < 2^31 "
+   "and every stride < 2^31 (i*stride cannot overflow), every array at most 2^50 bytes (cbmc --object-bits 12); func stride 0 or a "
+   "multiple of 8; result / id stride a non-zero multiple of 8 when the array is given (aligned, non-overlapping slots; C11 6.3.2.3p7); "
+   "every item of [0, n) lies inside its array; arrays may be longer (arbitrary slack, covered by the guard cells)",
+   "the five user arrays are five DISJOINT objects of symbolic size; the documented layout `results = &args[0].result` (several strided arrays "
+   "interleaved in one array of structs) is not covered; ARGS and ATTRS are only used as addresses (never dereferenced by the library): "
+   "their object sizes are arbitrary and item addresses may lie beyond the modelled object",
+   "arg stride 0 and func stride 0 together: items are indistinguishable; only the number of calls (b - a), the result value and a non-NULL "
+   "id are claimed for the witness there",
+   "the attribute handed to create is required to be the slot of the first item of the child's range (what the code does); which thread "
+   "finally runs an item with which attribute is not part of the property statement and is not claimed (the thread created with "
+   "attrs[a] itself runs the LAST item of its range)",
+   "bounded cross-check jobs c17.aux.leaf.s0/s1, c17.aux.split.s0/s1: unrewritten text with the real multiplications for the constant stride "
+   "tuples (ids,funcs,args,results,attrs) = (8,0,1,8,0) and (16,8,4,32,2), item numbers < 2^16; labelled bounded, not counted as proof",
+   "termination: decreases b - a is an obligation of every call made from aux's body; termination of create/join themselves (scheduler "
+   "liveness, 1..N workers) is not decided here (C01/C02)",
+   "NOT DECIDED: the TBB-like layer src/mtbb (task_group::run/wait, parallel_for): C++ templates and lambdas are outside CBMC's C++ front "
+   "end in this image and rewriting them in C would be a model; in particular the empty/reversed-range recursion of parallel_for_aux "
+   "named in the property's why_tests_cant is not decided by this unit",
+   "the one-line forwarders myth_create_join_many_ex / myth_create_join_various_ex (myth_if_native.c) are not in this unit (DESIGN 3.5b)",
+ ],
 }
